@@ -34,6 +34,12 @@ CHECKS = {
  "C10": ("exploration", "offline checker over a delivery log with unique ids (exactly-once, right recipient, page order, events)",
   "Every request/response/event carries a unique id; the checker compares what the emitter put on the wire with what each request's channel, the event channel and handlers received: all k! answer orders for k<=6, PRNG orders up to 1024 outstanding, multi-page interleavings, spurious ids; socket sessions for all versions and compressions incl. v5 segments with several envelopes per segment and split envelopes, concurrent senders.",
   "Timing-free by construction (barrier events, judge drains channels itself); late duplicates for recycled ids are counted, not judged. " + TB, "DESIGN.md §4 C10"),
+ "C11": ("exploration", "runtime round-trip monitor over (CQL type tree, Go representation, value) triples",
+  "Every scalar type x every Go representation of the doc.go table x every pool value the representation holds exactly (fixed, seed-independent table), plus PRNG container types (depth <=3/4, width <=4) in slice/array/map/struct/pointer/interface representations: Encode then Decode into the same representation must return an equal value, and Decode into *interface{} must yield PreferredGoType holding the same value.",
+  "internal/cqlgen (representation table transcribed from doc.go); only values a representation holds exactly are paired with it. " + TB, "DESIGN.md §4 C11"),
+ "C12": ("exploration", "differential monitor against an independent CQL value serializer/parser written from spec section 5/6",
+  "The library's bytes for every C11 triple are compared byte-for-byte with an independent serializer (map/set order and NaN payloads through the strict reference parser), reference bytes must decode to the value, and 78 literal golden vectors (the spec's varint table, date offset, vints, v2 vs v3+ collections, tuple/UDT framing, UDTs with omitted trailing fields) are cross-checked on every run.",
+  "Trusted base: internal/cqlref, my reading of spec section 5/6, pinned by the golden vectors. " + TB, "DESIGN.md §4 C12"),
  "C13": ("exploration", "runtime monitor with an arbitrary-precision (math/big) judge over all (CQL numeric type, Go type) pairs",
   "Every (CQL numeric type, Go numeric/string type) pair in both directions is driven with every type boundary +-1 and PRNG values of all magnitudes through the real codecs; a result is accepted only if it is an error or exactly the mathematical value.",
   "Reference (de)serializers of the fixed-width/varint/vint formats written from spec section 5/6 in cmd/c13; value pools are sampled, pairs are complete. " + TB, "DESIGN.md §4 C13"),
